@@ -246,9 +246,9 @@ func glue(dir string) (_ []Route, hasServer, stubErrors bool, _ error) {
 		for _, m := range secMethods {
 			fmt.Fprintf(&sb, "func (simSec) %s {\n\treturn ctx, nil\n}\n\n", m)
 		}
-		sb.WriteString("// SimNewServer builds the server with the stub handler, an accept-all security handler and one middleware.\nfunc SimNewServer(mw ...Middleware) (http.Handler, error) {\n\treturn NewServer(UnimplementedHandler{}, simSec{}, WithMiddleware(mw...))\n}\n")
+		sb.WriteString("// SimNewServer builds the server with the stub handler, an accept-all security handler and one middleware.\nfunc SimNewServer(eh func(context.Context, http.ResponseWriter, *http.Request, error), mw ...Middleware) (http.Handler, error) {\n\treturn NewServer(UnimplementedHandler{}, simSec{}, WithMiddleware(mw...), WithErrorHandler(eh))\n}\n")
 	} else {
-		sb.WriteString("// SimNewServer builds the server with the stub handler and one middleware.\nfunc SimNewServer(mw ...Middleware) (http.Handler, error) {\n\treturn NewServer(UnimplementedHandler{}, WithMiddleware(mw...))\n}\n")
+		sb.WriteString("// SimNewServer builds the server with the stub handler and one middleware.\nfunc SimNewServer(eh func(context.Context, http.ResponseWriter, *http.Request, error), mw ...Middleware) (http.Handler, error) {\n\treturn NewServer(UnimplementedHandler{}, WithMiddleware(mw...), WithErrorHandler(eh))\n}\n")
 	}
 	return rs, true, stubErrors, os.WriteFile(filepath.Join(dir, "zz_sim_glue.go"), []byte(sb.String()), 0o644)
 }
@@ -294,11 +294,11 @@ func weedCorpus(s *build.Scratch, pkgs []CorpusPkg, skipped map[string]string) (
 		}
 	}
 	var sb strings.Builder
-	sb.WriteString("package xsim\n\nimport (\n\t\"net/http\"\n\n\t\"github.com/ogen-go/ogen/middleware\"\n\n")
+	sb.WriteString("package xsim\n\nimport (\n\t\"context\"\n\t\"net/http\"\n\n\t\"github.com/ogen-go/ogen/middleware\"\n\n")
 	for _, p := range keep {
 		fmt.Fprintf(&sb, "\t%s \"simh/cx/%s\"\n", p.Name, p.Name)
 	}
-	sb.WriteString(")\n\n// servers maps a corpus package to its constructor.\nvar servers = map[string]func(...middleware.Middleware) (http.Handler, error){\n")
+	sb.WriteString(")\n\n// servers maps a corpus package to its constructor.\nvar servers = map[string]func(func(context.Context, http.ResponseWriter, *http.Request, error), ...middleware.Middleware) (http.Handler, error){\n")
 	for _, p := range keep {
 		fmt.Fprintf(&sb, "\t%q: %s.SimNewServer,\n", p.Name, p.Name)
 	}
